@@ -15,6 +15,20 @@ PROPS = {
                     "metamorphic stream only", "float literals: differential against strconv only",
                     "string-literal unescaping: differential only"],
     },
+    "C11": {
+        "gens": [],
+        "lean": "Anko.Props.C11",
+        "streams": [{"name": "goconv", "n_quick": 600, "n_thorough": 12000}],
+        "trusted": ["the conversion model lean/Anko/Model/Conv.lean mirrors convertReflectValueToType (validated each run: every value of the pool x every parameter type inside the "
+                    "model's universe, received dynamic type + value or error)",
+                    "Go's reflect package as the reference for 'the value Go's own conversion to T would produce' (refConvert in tools/cmd/harness/goconv.go)",
+                    "reflect.MakeFunc functions of the harness record exactly what the interpreter passes"],
+        "assumptions": ["the Lean universe: int64/int32/int8/uint8, string (ASCII for string <-> []int32), bool, interface{}, slices and maps of those; floats, pointers, structs, "
+                        "func types are covered by the native oracle only",
+                        "functions without parameters ignore their arguments and a spread list longer than the remaining fixed parameters is truncated (both pinned by vm tests): not tested as errors"],
+        "partial": ["'exactly the supplied arguments' for the four call shapes is decided by the stream (random signatures x shapes x counts) and, for the spread branches, by the "
+                    "spread theorems over the interpreter model; methods, fields, callbacks and identity are oracle-only"],
+    },
     "C10": {
         "gens": [],
         "lean": "Anko.Props.C10",
@@ -219,6 +233,20 @@ MANIFEST_TEXT = {
         "note": "Trusted: Lean kernel; goyacc (LALR tables not modelled); the grammar extractor (regex over parser.go.y, closed shapes). Follows fix a4e6d85 (-0b literals).",
         "technique": "Lean 4 proof (precedence-climbing round trip by induction on trees; decide over regenerated table) + metamorphic parser correspondence",
         "design_ref": "DESIGN.md section 6 (C03)",
+    },
+    "C11": {
+        "text": "Machine-checked proofs (Lean 4) over a model of the conversion routine (sized integers, string, bool, interface{}, slices and "
+                "maps to any nesting depth): type soundness - every successful conversion yields a well-formed value OF THE TARGET TYPE (mutual "
+                "induction over values), interface{} targets and same-type values pass unchanged, nil becomes the zero value, integer "
+                "conversions wrap into range, element-wise conversion keeps length and order and fails as a whole, no conversion between bool "
+                "and numbers/strings; spread calls hand the list over unchanged / fail without calling when too short. Correspondence + oracle: "
+                "37 script values x 25 Go parameter types through reflect.MakeFunc functions (received dynamic type + value or error) against "
+                "Go's own conversion and the model; random signatures x fixed/variadic x plain/spread x argument counts x 0-3 results; methods "
+                "(value / pointer receivers, variadic), field read/write through pointers, callbacks of func types, identity of Go values "
+                "through Define/Get, containers, Go and script identity functions.",
+        "note": "Trusted: Lean kernel; reflect as conversion reference; model fidelity (differential). Follows fix d412209 (unexported field read).",
+        "technique": "Lean 4 proof (type soundness of conversion by mutual structural induction) + differential conversion correspondence + reflective call-shape oracles",
+        "design_ref": "DESIGN.md section 6 (C11)",
     },
     "C10": {
         "text": "Machine-checked proofs (Lean 4) over a heap model (slice headers over shared backing arrays, maps by reference, immutable "
